@@ -1,11 +1,14 @@
 #!/usr/bin/env python3
 """Sensitivity self-test: apply each patch in mutants/ (and the reverse of each `fix:` commit, which
 re-introduces a genuine defect) to a scratch copy of /repo and require the owning check to report a
-VIOLATION. Nothing is applied to /repo. Usage: selftest.py [--jobs N] [--only ID,...] [--tier quick]"""
+VIOLATION. Nothing is applied to /repo. Usage: selftest.py [--jobs N] [--only ID,...] [--tier quick] [--promote] [--with-regress]
+By default the promoted regression cases (regress/) are withheld, so that a CAUGHT verdict is earned by the generators."""
 import json, os, subprocess, sys, shutil, concurrent.futures, time, glob
 
 ROOT = os.path.dirname(os.path.dirname(os.path.abspath(__file__)))
 SCRATCH = "/tmp/vmut"
+PROMOTE = False
+WITH_REGRESS = False   # default: generators only - promoted regression cases are NOT given to the check
 
 def sh(cmd, **kw):
     return subprocess.run(cmd, shell=True, capture_output=True, text=True, **kw)
@@ -39,15 +42,20 @@ def run_one(m, slot, tier):
     if r.returncode != 0:
         return mid, "PATCH-FAILED", r.stdout[-400:] + r.stderr[-400:], 0
     shutil.copy(os.path.join(ROOT, "known_findings.jsonl"), out)
-    if os.path.isdir(os.path.join(ROOT, "regress")) and not m.get("no_regress"):
+    if WITH_REGRESS and os.path.isdir(os.path.join(ROOT, "regress")):
         shutil.copytree(os.path.join(ROOT, "regress"), os.path.join(out, "regress"))
     res = []
     t0 = time.time()
     for prop in m["properties"]:
-        env = dict(os.environ, VERIF_REPO_OVERRIDE=repo, VERIF_TARGET_DIR=os.path.join(work, "target"), VERIF_OUT_ROOT=out)
+        env = dict(os.environ, VERIF_REPO_OVERRIDE=repo, VERIF_TARGET_DIR=os.path.join(work, "target"), VERIF_OUT_ROOT=out, VERIF_SRC_ROOT=out)
         t = m.get("tier", tier)
         r = subprocess.run([os.path.join(ROOT, "check"), prop, t], capture_output=True, text=True, env=env, timeout=7200)
         viol = [l for l in r.stdout.splitlines() if l.startswith("VIOLATION")]
+        if viol and PROMOTE:
+            rp = viol[0].split("replay=")[1].strip()
+            if os.path.exists(rp):
+                os.makedirs(os.path.join(ROOT, "regress", prop), exist_ok=True)
+                shutil.copy(rp, os.path.join(ROOT, "regress", prop, "%s.json" % mid))
         detail = [l for l in r.stdout.splitlines() if l.startswith("  [")][:2]
         res.append((prop, r.returncode, bool(viol), detail, r.stderr[-300:] if r.returncode == 2 else ""))
     caught = any(v for _, _, v, _, _ in res)
@@ -55,6 +63,7 @@ def run_one(m, slot, tier):
     return mid, status, res, time.time() - t0
 
 def main():
+    global PROMOTE, WITH_REGRESS
     jobs = 4; only = None; tier = "quick"
     a = sys.argv[1:]
     while a:
@@ -62,6 +71,8 @@ def main():
         if x == "--jobs": jobs = int(a.pop(0))
         elif x == "--only": only = set(a.pop(0).split(","))
         elif x == "--tier": tier = a.pop(0)
+        elif x == "--promote": PROMOTE = True
+        elif x == "--with-regress": WITH_REGRESS = True
     ms = [m for m in load_mutants() if only is None or m["id"] in only]
     os.makedirs(SCRATCH, exist_ok=True)
     results = {}
